@@ -1,6 +1,12 @@
 package main
 
-import "fmt"
+import (
+	"fmt"
+	"go/types"
+	"strings"
+
+	"golang.org/x/tools/go/ssa"
+)
 
 func init() { props["C29"] = checkC29 }
 
@@ -58,4 +64,63 @@ func checkC29(r *Run) {
 		}
 	}
 	r.ReturnShape("C29-R2", "visor.txnHashesContainer.Len", 0, ShapeCase{"", "uint64(len($0.items))"})
+	// R4 the list the pages are cut from holds every hash once: each append to items happens only when the hash
+	// is not yet in the membership map, and records it there
+	nApp := 0
+	for _, fn := range r.P.ModFns {
+		if !strings.HasPrefix(FnName(fn), "visor.") {
+			continue
+		}
+		ff := r.P.Facts(fn)
+		for _, b := range fn.Blocks {
+			for _, in := range b.Instrs {
+				st, ok := in.(*ssa.Store)
+				if !ok {
+					continue
+				}
+				fa, ok := st.Addr.(*ssa.FieldAddr)
+				if !ok {
+					continue
+				}
+				sty := derefStruct(fa.X.Type())
+				nt, isNamed := derefType(fa.X.Type()).(*types.Named)
+				if sty == nil || !isNamed || nt.Obj().Name() != "txnHashesContainer" || sty.Field(fa.Field).Name() != "items" {
+					continue
+				}
+				if _, isApp := st.Val.(*ssa.Call); !isApp {
+					continue // not an append (constructor literal)
+				}
+				nApp++
+				var fs []string
+				for _, a := range ff.MustAt(in) {
+					fs = append(fs, a.S)
+				}
+				at, m := matchAny([]string{"!lookup(" + ff.Term(fa.X) + ".m[*])#1"}, fs)
+				r.Check("C29-R4", FnName(fn)+": an item is appended only when its hash is not yet in the container", r.P.Pos(in.Pos()), m, "append to items reachable with the hash already present: the result list would hold a transaction twice")
+				// the same key is recorded in the map
+				rec := false
+				if m {
+					key := at[strings.Index(at, ".m[")+3 : strings.LastIndex(at, "])#1")]
+					for _, b2 := range fn.Blocks {
+						for _, in2 := range b2.Instrs {
+							if mu, ok := in2.(*ssa.MapUpdate); ok && ff.Term(mu.Key) == key && strings.HasSuffix(ff.Term(mu.Map), ".m") {
+								rec = true
+							}
+						}
+					}
+					val := ff.Term(st.Val)
+					r.Check("C29-R4", FnName(fn)+": the membership test is on the appended item's own hash", r.P.Pos(in.Pos()), strings.Contains(val, "hash: "+key) || strings.Contains(val, "["+strings.TrimSuffix(key, ".hash")+"]"), "tests "+key+", appends "+trunc(val, 160))
+				}
+				r.Check("C29-R4", FnName(fn)+": the appended hash is recorded in the membership map", r.P.Pos(in.Pos()), rec, "")
+			}
+		}
+	}
+	r.Check("C29-R4", "append sites of txnHashesContainer.items", "", nApp >= 1, fmt.Sprint(nApp))
+}
+
+func derefType(t types.Type) types.Type {
+	if p, ok := t.Underlying().(*types.Pointer); ok {
+		return p.Elem()
+	}
+	return t
 }
